@@ -171,10 +171,10 @@ func cmdCheck(args []string) int {
 	}
 	seed := 0
 	fmt.Sscanf(os.Getenv("VERIF_SEED"), "%d", &seed)
-	secs := 10
+	secs := 25
 	thorough := *tier == "thorough"
 	if thorough {
-		secs = 60
+		secs = 90
 	}
 	violations := 0
 	report := func(ob string, replay string, tail string) {
